@@ -25,6 +25,7 @@ def main(argv):
         tier = rp.get('tier', tier)
         prop = rp.get('property', prop)
         print('replaying %s (seed %d, tier %s)' % (prop, seed, tier))
+    os.environ['VERIF_TIER_EFFECTIVE'] = tier
     import props_lex, props_def, props_lib
     table = {
         'C01': lambda: props_lex.check_stream_props('C01', tier, seed),
